@@ -57,7 +57,7 @@ PROPS = {
         'partial': "the real-time firing of the ticker ('plus one cleanup interval') is not modelled: ticks are labels; the listing invariant and the reclamation theorems are proved for collision-free runs (every conflict hash 0); an item written before a cleanup, already due at it and admitted only afterwards is reclaimed by the next cleanup (hypothesis no_stale_admission of C05_listings_stay_later_than_the_last_cleanup)",
     },
     'C09': {
-        'suites': [('cachet', 300, 3000, ''), ('cacheq', 100, 1000, ''), ('cacheqa', 100, 1000, ''), ('defaults', 1, 1, ''), ('cachec', 150, 1500, '')],
+        'suites': [('cachet', 300, 3000, ''), ('cacheq', 100, 1000, ''), ('cacheqa', 100, 1000, ''), ('defaults', 1, 1, ''), ('cachec', 150, 1500, ''), ('stress', 100, 1000, '')],
         'rule': CACHE_RULE % "Cache and AsyncCache" + "validators {always, never, new > old, new mod 3 != old mod 3}, insert_if_present on absent / removed / expired-unswept / still-buffered keys; monitor: insert_if_present on a non-resident key leaves the snapshot bit-for-bit unchanged",
         'assumptions': COMMON_ASSUMPTIONS,
         'partial': "",
@@ -135,7 +135,7 @@ PROPS = {
         'partial': "",
     },
     'C04': {
-        'suites': [('cacheq', 400, 4000, ''), ('cacheqb', 300, 3000, ''), ('cachepair', 100, 1000, '')],
+        'suites': [('cacheq', 400, 4000, ''), ('cacheqb', 300, 3000, ''), ('cachepair', 100, 1000, ''), ('cacher', 150, 1500, '')],
         'rule': CACHE_RULE % "Cache and AsyncCache" + "suites cacheq / cacheqb (sync; either flavour): max_cost 100000 so that the total cost always fits, insert buffer 64, every operation run to quiescence; inserts with TTLs {1 ns .. 1 h} and without, re-inserts switching TTL <-> none, removes, clears, lookups, get_ttl, clock advances landing on and around second boundaries, ticks at irregular times, key re-use after clear; the harness runs an oracle map with TTLs in lockstep (monitor: every lookup and every get_ttl must equal the oracle's answer, on_evict for unexpired entries and on_reject must never fire), and the expiry buckets, charges and store are compared with the model after every segment",
         'assumptions': COMMON_ASSUMPTIONS + ["quiescence between operations (the property's own quantifier: 'at quiescent points'); with concurrent clients a Delete queued by a remove() that overlaps a later insert of the same key can take that insert out (the item protocol orders effects by buffer position, see DESIGN.md)", "fewer than num_to_keep = 100000 tracked keys when metrics are on"],
         'partial': "the refinement to a map with TTLs is proved operation by operation (insert of a new key, re-insert, remove, lookup, each from an arbitrary quiescent state to the next, plus retention / no-eviction / sweep-only-expired for every step); the induction over a whole history and the tick's end-to-end lemma (it iterates a hash map in an order reported by the implementation) are carried by the oracle monitor and the correspondence, not by one theorem",
